@@ -20,7 +20,11 @@ import (
 // resSpec is one resource of a system.
 //
 //	private kinds (Users = [owner]):  local | ilocal | reflocal | incmap | hashmap
-//	shared (Users = all users):      shared   (resources.LocalSharedManager, one handle per user)
+//	shared (Users = all users):      shared   (resources.LocalSharedManager, one handle per user, behind Logging)
+//	                                  sharedfn (function-valued LocalShared variable bound WITHOUT any wrapper: whole and
+//	                                           indexed access, the latter through localShared.Index -> sub-resource)
+//	                                  sharedmap (per-user IncMap, bound without wrapper, whose elements are handles
+//	                                           of LocalShared variables common to all users)
 //	links (Users = [writer, reader]): chan (OutputChan -> Go channel -> InputChan) | tcp (TCP mailbox on loopback)
 type resSpec struct {
 	Name  string `json:"name"`
@@ -45,7 +49,9 @@ func isPrivate(kind string) bool {
 }
 
 // hintKinds: resources whose writes deliver a previous-value hint (they bottom out in a local state variable).
-func givesHint(kind string) bool { return isPrivate(kind) || kind == "shared" }
+func givesHint(kind string) bool {
+	return isPrivate(kind) || kind == "shared" || kind == "sharedfn" || kind == "sharedmap"
+}
 
 func intp(i int) *int { return &i }
 
@@ -59,6 +65,10 @@ func menu(r resSpec, a int) []gate2.Op {
 		return []gate2.Op{{K: "r", R: n, I: intp(1)}, {K: "w", R: n, I: intp(1)}, {K: "w", R: n, I: intp(2)}}
 	case "hashmap":
 		return []gate2.Op{{K: "r", R: n, I: intp(1)}, {K: "w", R: n, I: intp(1)}}
+	case "sharedfn":
+		return []gate2.Op{{K: "r", R: n, I: intp(1)}, {K: "w", R: n, I: intp(1)}, {K: "w", R: n, I: intp(2)}, {K: "r", R: n}, {K: "w", R: n}}
+	case "sharedmap":
+		return []gate2.Op{{K: "r", R: n, I: intp(1)}, {K: "w", R: n, I: intp(1)}, {K: "w", R: n, I: intp(2)}}
 	case "chan":
 		if r.Users[0] == a {
 			return []gate2.Op{{K: "w", R: n}, {K: "f", R: n}}
@@ -139,7 +149,7 @@ func initModel(sys sysSpec) model {
 		switch r.Kind {
 		case "local", "reflocal", "shared":
 			m[r.Name] = &mres{cell: r.Name + "_0"}
-		case "ilocal", "incmap", "hashmap":
+		case "ilocal", "incmap", "hashmap", "sharedfn", "sharedmap":
 			m[r.Name] = &mres{idx: map[string]string{"1": r.Name + "_1_0", "2": r.Name + "_2_0"}}
 		default:
 			m[r.Name] = &mres{}
@@ -200,9 +210,30 @@ func buildSystem(sys sysSpec, env *wenv, withFaulty bool) *built {
 		b.vars[a] = append(b.vars[a], gate2.Var{Name: name, Ref: true})
 		b.cfg[a] = append(b.cfg[a], distsys.EnsureArchetypeRefParam(name, r))
 	}
+	// bindRaw binds a resource exactly as an application would: no Logging, no Faulty.  The runtime picks code paths
+	// by the dynamic type of what Index/the handle yields, and a wrapper would hide the real types from it.
+	bindRaw := func(a int, name string, res distsys.ArchetypeResource) {
+		b.vars[a] = append(b.vars[a], gate2.Var{Name: name, Ref: true})
+		b.cfg[a] = append(b.cfg[a], distsys.EnsureArchetypeRefParam(name, res))
+	}
 	for _, r := range sys.Res {
 		n := r.Name
 		switch r.Kind {
+		case "sharedfn":
+			mgr := resources.NewLocalSharedManager(tla.MakeTuple(tla.MakeString(n+"_1_0"), tla.MakeString(n+"_2_0")), resources.WithLocalSharedResourceTimeout(20*time.Second))
+			for _, a := range r.Users {
+				bindRaw(a, n, mgr.MakeLocalShared())
+			}
+		case "sharedmap":
+			mgrs := map[int32]*resources.LocalSharedManager{}
+			for _, k := range []int32{1, 2} {
+				mgrs[k] = resources.NewLocalSharedManager(tla.MakeString(fmt.Sprintf("%s_%d_0", n, k)), resources.WithLocalSharedResourceTimeout(20*time.Second))
+			}
+			for _, a := range r.Users {
+				bindRaw(a, n, resources.NewIncMap(func(index tla.Value) distsys.ArchetypeResource {
+					return mgrs[index.AsNumber()].MakeLocalShared()
+				}))
+			}
 		case "local":
 			a := r.Users[0]
 			b.vars[a] = append(b.vars[a], gate2.Var{Name: n, Init: tla.MakeString(n + "_0")})
